@@ -12,6 +12,7 @@ EXTENDS LspScope, Positions, Json, TLC, Randomization
 CONSTANTS Mode,        \* "ascii" | "bmp" | "all"  -- which pads decorations may use
           PerSk,       \* slot assignments sampled per skeleton
           PerDeco,     \* decorations sampled per slot assignment
+          SkSet,       \* which skeletons
           WithTable    \* print the whole place table (for the span checks)
 
 Names == {"xx", "yy"}
@@ -99,9 +100,17 @@ Sk4(n) == Globals \o <<
     ExprS(Use(n[17])) >>
 NS4 == 17
 
-Skeleton(sk, n) == CASE sk = 1 -> Sk1(n) [] sk = 2 -> Sk2(n) [] sk = 3 -> Sk3(n) [] sk = 4 -> Sk4(n)
-NSlots(sk) == CASE sk = 1 -> NS1 [] sk = 2 -> NS2 [] sk = 3 -> NS3 [] sk = 4 -> NS4
-SkIds == 1..4
+(* a document that does not parse: the parse error must be reported at the marked token *)
+Sk5(n) == Globals \o <<
+    Def("ff", <<Par(n[1], <<>>)>>, <<
+        ExprS(Use(n[2])),
+        BadAssign(n[3]) >>),
+    ExprS(Use(n[4])) >>
+NS5 == 4
+
+Skeleton(sk, n) == CASE sk = 1 -> Sk1(n) [] sk = 2 -> Sk2(n) [] sk = 3 -> Sk3(n) [] sk = 4 -> Sk4(n) [] sk = 5 -> Sk5(n)
+NSlots(sk) == CASE sk = 1 -> NS1 [] sk = 2 -> NS2 [] sk = 3 -> NS3 [] sk = 4 -> NS4 [] sk = 5 -> NS5
+SkIds == 1..5
 
 (* the module the load statement names: binds every load symbol with the value "ld_<name>" *)
 LoadedText == <<120, 120, 32, 61, 32, 34, 108, 100, 95, 120, 120, 34, 10>>     \* xx = "ld_xx"\n
@@ -110,8 +119,15 @@ LoadedOcc  == [a |-> 0, e |-> 2]
 -----------------------------------------------------------------------------
 VARIABLES sk, slots, deco
 
-Init == /\ sk \in SkIds
-        /\ slots \in RandomSubset(PerSk, [1..NSlots(sk) -> Names])
+(* a slot assignment is drawn as a number: bit i-1 selects the name in slot i (sampling an interval
+   is cheap; sampling the function set [1..19 -> Names] enumerates it) *)
+RECURSIVE Pow2(_)
+Pow2(k) == IF k = 0 THEN 1 ELSE 2 * Pow2(k - 1)
+SlotsOf(x, ns) == [i \in 1..ns |-> IF (x \div Pow2(i - 1)) % 2 = 0 THEN "xx" ELSE "yy"]
+
+Init == /\ sk \in SkSet
+        /\ \E x \in RandomSubset(IF PerSk < Pow2(NSlots(sk)) THEN PerSk ELSE Pow2(NSlots(sk)),
+                                   0..(Pow2(NSlots(sk)) - 1)) : slots = SlotsOf(x, NSlots(sk))
         /\ deco \in RandomSubset(PerDeco, Decos)
 Next == UNCHANGED <<sk, slots, deco>>
 
@@ -119,25 +135,27 @@ R4(r) == <<r.start.line, r.start.character, r.end.line, r.end.character>>
 
 SetToSortedSeq(S) == LET RECURSIVE F(_) F(X) == IF X = {} THEN <<>> ELSE <<Min(X)>> \o F(X \ {Min(X)}) IN F(S)
 
-OutOf(mod, d) ==
-    LET doc == Doc(mod, d)
-        tab == Table(doc.cps)
-        occs == doc.occs
-        res(i) == Resolve(occs, i)
-    IN [text  |-> doc.cps,
-        lens  |-> LineLens16(doc.cps),
-        occs  |-> [i \in 1..Len(occs) |->
-                     LET x == occs[i] r == res(i) IN
-                     [n |-> x.o.name, bind |-> x.o.bind, role |-> x.o.role, tagged |-> x.o.tagged,
-                      r  |-> R4(ToLspRange(tab, x.a, x.e)),
-                      cp |-> R4(ToCpRange(tab, x.a, x.e)),
-                      by |-> R4(ToByteRange(tab, x.a, x.e)),
-                      off |-> <<tab[x.a + 1].b, tab[x.e + 1].b>>,
-                      ab |-> AstralBefore(tab, x.a), nb |-> NonAsciiBefore(tab, x.a),
-                      depth |-> IF x.o.bind THEN 0 ELSE r.depth,
-                      nsc |-> Len(x.o.chain),
-                      targets |-> IF x.o.bind THEN <<>> ELSE SetToSortedSeq(r.targets)]],
-        table |-> IF WithTable THEN [k \in 1..Len(tab) |-> <<tab[k].b, tab[k].l, tab[k].c, tab[k].w>>] ELSE <<>>]
+(* TLC re-evaluates LET definitions inside function constructors; binding through a singleton set
+   forces the document and its place table to be computed once *)
+Out3(doc, tab) ==
+    LET occs == doc.occs IN
+    [text  |-> doc.cps,
+     lens  |-> LineLens16(doc.cps),
+     occs  |-> [i \in 1..Len(occs) |->
+                  LET x == occs[i] IN
+                  [n |-> x.o.name, bind |-> x.o.bind, role |-> x.o.role, tagged |-> x.o.tagged,
+                   r  |-> R4(ToLspRange(tab, x.a, x.e)),
+                   cp |-> R4(ToCpRange(tab, x.a, x.e)),
+                   by |-> R4(ToByteRange(tab, x.a, x.e)),
+                   off |-> <<tab[x.a + 1].b, tab[x.e + 1].b>>,
+                   ab |-> AstralBefore(tab, x.a), nb |-> NonAsciiBefore(tab, x.a),
+                   depth |-> IF x.o.bind THEN 0 ELSE Resolve(occs, i).depth,
+                   nsc |-> Len(x.o.chain),
+                   binders |-> IF x.o.bind THEN 0 ELSE Resolve(occs, i).binders,
+                   targets |-> IF x.o.bind THEN <<>> ELSE SetToSortedSeq(Resolve(occs, i).targets)]],
+     table |-> IF WithTable THEN [k \in 1..Len(tab) |-> <<tab[k].b, tab[k].l, tab[k].c, tab[k].w>>] ELSE <<>>]
+Out2(doc) == CHOOSE r \in {Out3(doc, tab) : tab \in {Table(doc.cps)}} : TRUE
+OutOf(mod, d) == CHOOSE r \in {Out2(doc) : doc \in {Doc(mod, d)}} : TRUE
 
 Out == [sk |-> sk, slots |-> slots, deco |-> deco] @@ OutOf(Skeleton(sk, slots), deco)
 
